@@ -347,8 +347,8 @@ def replay(case):
 def run(tier='quick', seed=0, nproc=16):
   n = 3 if tier == 'quick' else 4
   res = common.pmap(check_sig, gen.shuffled([(s.kinds, s.hasdef) for s in gen.all_sigs(n)]), nproc)
-  res.append(api_cases())
-  res.append(thread_cases())
+  res.append(common.guard(api_cases))
+  res.append(common.guard(thread_cases))
   return common.merge(
       res, 'layerb.prop_C16', keyfn=lambda v: f"api:{v['api']}:{v.get('vkind')}" if v.get('api') else None,
       rule='every mutating edit of C03 (by name, index, negative index, VARARGS, slices incl. *args '
